@@ -40,8 +40,15 @@ LEVEL_NOTE = "one table, two filter columns; trusts sqlite3 and the 40-line eval
 TECHNIQUE = "runtime monitoring: three-valued-logic reference evaluator + recording cursor proxy"
 
 INTS = [None, 0, 1, 2, 5, -3]
-STRS = [None, "", "a", "ab", "A", "a%", "a_b", "x'y", "'; DROP TABLE t; --", '"q"', "abc", "1 OR 1=1", "%"]
-HOSTILE = {"x'y", "'; DROP TABLE t; --", '"q"', "1 OR 1=1"}
+STRS = [None, "", "a", "ab", "A", "a%", "a_b", "x'y", "'; DROP TABLE t; --", '"q"', "abc", "1 OR 1=1", "%",
+        "IS NULL", "is not null", "IN", "LIKE", "=", "NULL", "?", "%s"]
+HOSTILE = {"x'y", "'; DROP TABLE t; --", '"q"', "1 OR 1=1", "IS NULL", "is not null", "IN", "LIKE", "=", "NULL", "?",
+           "%s"}
+
+
+# values spelled like pieces of the statement itself: their presence in the text proves nothing (that they
+# are BOUND is decided by the multiset of parameters and by the returned rows)
+SQL_WORDS = {"IS NULL", "IS NOT NULL", "IN", "LIKE", "NULL", "%S", "OR", "AND", "NOT", "NOT IN"}
 
 
 class Cur:
@@ -377,7 +384,7 @@ def run_case(ctx, rng):
         if isinstance(p, str):
             if p in HOSTILE:
                 ctx.count("hostile_strings_bound")
-            if len(p) >= 2 and p in sql_dyn:
+            if len(p) >= 2 and p in sql_dyn and p.upper() not in SQL_WORDS:
                 ctx.violation("value-inlined-into-sql-text", {"sql": sql[:300], "value": p}, case)
     if percent_s and "?" in sql:
         ctx.violation("mixed-placeholder-styles", {"sql": sql}, case)
